@@ -455,10 +455,19 @@ def _persistence(chk, r6):
             if isinstance(n, ast.Subscript) and isinstance(n.slice, ast.Constant) and n.slice.value == "disqualification":
                 return True
             return isinstance(n, ast.Attribute) and n.attr == "disqualification" and isinstance(n.ctx, ast.Load)
+        from rules.common import returned_names
+        objs = returned_names(from_dict)
         for st, recv, v in attr_stores(from_dict, "disqualification", self_ok=False):
-            detail = unparse(v)
-            if flows_from(from_dict, st, v, _doc_key):
+            detail = f"{unparse(recv)}.disqualification = {unparse(v)[:80]}"
+            # the list must land on the very object that is handed back (a store on the class, or on another object, is shared
+            # between all models of the family / lost)
+            if isinstance(recv, ast.Name) and recv.id in objs and flows_from(from_dict, st, v, _doc_key):
                 ok_reader = True
+        for st, recv, v in attr_stores(from_dict, "disqualification", self_ok=True):
+            if isinstance(recv, ast.Name) and recv.id in ("cls", from_dict.cls.name if from_dict.cls else "cls"):
+                r6.require(False, f"{from_dict.key}|reader-stores-on-class", from_dict.where(st),
+                           f"{from_dict.key}: `{unparse(st)[:90]}` stores the loaded disqualification on the *class*: every model of the family then shares the list of whichever stored model was loaded last "
+                           f"(a disqualified model predicts after a qualified one was loaded)")
         r6.require(ok_reader, f"{from_dict.key}|reader-key", from_dict.where(),
                    f"{from_dict.key}: the model's `disqualification` is not restored from the document's `disqualification` entry (found: {detail})")
         # decoded into objects (truthiness preserved: list of dicts or of EEMeterWarning, never dropped/emptied)
